@@ -110,3 +110,14 @@ def pure_call(case, what, fn, arrays, kwargs=None, salt=0):
         except Exception:
             pass
     return out, ['plain', 'primed', 'held', 'primed+held'][mode]
+
+
+def npint(case, value, salt=0):
+    """an integer argument as a plain Python int or as a numpy integer scalar (derived from the case): what a caller looping over numpy arrays passes"""
+    from .core import digest
+    if value is None:
+        return None
+    kind = [None, None, None, 'int64', 'int32', 'uint8'][digest(case)[4 + salt] % 6]
+    if kind is None or (kind == 'uint8' and not 0 <= int(value) < 256):
+        return value
+    return np.dtype(kind).type(value)
